@@ -207,11 +207,24 @@ func runC16(c *Ctx) Result {
 		}
 	}
 	if b.Mode == 1 || b.Mode == 5 {
-		if len(conts) == 0 {
+		if g.d(4) == 0 && len(all) > 1 {
+			// the shared node itself is a raw SCALAR (string / number / literal member):
+			// it is materialised in place by the first typed read
+			b.Sub = all[1+g.d(len(all)-1)]
+			c.inc("shared_node_is_any_member")
+		} else if len(conts) == 0 {
 			b.Mode = 0
 		} else {
 			b.Sub = conts[g.d(len(conts))]
 		}
+	} else if b.Mode == 2 && g.d(5) == 0 {
+		// NewRawConcurrentRead on a scalar text
+		b.Text = []string{`"hello, sonic"`, `true`, `null`, `12345`, `"esc\"aped\n"`, `-1.5e3`, `false`}[g.d(7)]
+		text = b.Text
+		jv, _ = parseJV(text)
+		all = [][]interface{}{{}}
+		conts = nil
+		c.inc("shared_node_is_scalar_document")
 	}
 	// a share of runs: structurally invalid text behind a non-validating constructor
 	invalid := false
